@@ -79,7 +79,10 @@ CLAIMED = {
     'C08': dict(
         text='Bounded proof by symbolic execution of the validator classes with symbolic parameters AND symbolic values '
              '(all integers; all binary64 incl. NaN/inf; strings <= 4/6 chars against length bounds and a list of '
-             'regexes; bytes; lists <= 3/4 items; values of every wrong kind) against the Stone type semantics.',
+             'regexes; bytes; lists <= 3/4 items; values of every wrong kind) against the Stone type semantics; plus the '
+             'generated classes of the catalogue: setattr on every primitive-built struct field and every typed union '
+             'helper with symbolic values (valid shape and one wrong-kind mutation) succeeds iff a reference predicate '
+             'derived from the stone.ir type accepts, reads back equal; user-typed fields over a finite set of instances.',
         note='Trusted: CrossHair/z3 and its regex engine, glue G1-G3. int->float conversion uses the real-number model '
              '(rounding/overflow outside). bool-as-number and NaN bounds are unspecified and not judged.',
         ref='4 (C08)'),
